@@ -260,6 +260,11 @@ fn check_steed(ctx: &Ctx, civ: &Civil, y: isize, loc: &mut Local) {
   let rp = vec!["steed".to_string(), y.to_string()];
   let r = guard(|| {
     let k = KitchenGodSteed::from_lunar_year(y);
+    // the year object's own accessor must give the same steed
+    let k2 = tyme4rs::tyme::lunar::LunarYear::from_year(y).get_kitchen_god_steed();
+    if k2.get_mouse() != k.get_mouse() || k2.get_people_hoes() != k.get_people_hoes() || k2.get_gold() != k.get_gold() || k2.get_name() != "灶马头" || k.to_string() != k2.to_string() {
+      panic!("LunarYear::get_kitchen_god_steed differs from KitchenGodSteed::from_lunar_year: {} vs {}", k2, k);
+    }
     let first = LunarDay::from_ymd(y, 1, 1);
     let jd = (first.get_lunar_month().get_first_julian_day().get_day() + 0.5).floor() as i64;
     (vec![k.get_mouse(), k.get_grass(), k.get_cattle(), k.get_flower(), k.get_dragon(), k.get_horse(), k.get_chicken(), k.get_silkworm(), k.get_pig(), k.get_field(), k.get_cake(), k.get_gold(), k.get_people_cakes(), k.get_people_hoes()], jd)
